@@ -288,8 +288,9 @@ class GriffeLoader:
                 module_path = export.canonical_path.rsplit(".", 1)[0]  # Remove trailing `.__all__`.
                 try:
                     next_module = self.modules_collection.get_member(module_path)
-                    # The module found can itself be an alias: make sure it can be resolved.
-                    next_module.exports  # noqa: B018
+                    # The member found can be an alias to the module: expand the module itself.
+                    if next_module.is_alias:
+                        next_module = next_module.final_target
                 except (KeyError, AliasResolutionError, CyclicAliasError):
                     logger.debug("Cannot expand '%s', try pre-loading corresponding package", export.canonical_path)
                     continue
